@@ -32,6 +32,8 @@ type c05Reply struct {
 func c05Scenario(c *choice.Ctx, rep *report.R, tcp bool, startQid int, nCalls, depth int, oversize int) {
 	own := env.InstallOwn(0xA5, vRace)
 	defer env.UninstallOwn()
+	pauseBegin(c)
+	defer pauseEnd()
 	network := "udp"
 	if tcp {
 		network = "tcp"
@@ -58,7 +60,7 @@ func c05Scenario(c *choice.Ctx, rep *report.R, tcp bool, startQid int, nCalls, d
 	forwarded := false
 
 	fail := func(sig, msg string) {
-		rep.Violate("C05:"+sig, fmt.Sprintf("%s\n  tcp=%v startQid=%d events: %s", msg, tcp, startQid, strings.Join(trace, " ")),
+		rep.Violate("C05:"+sig, fmt.Sprintf("%s\n  tcp=%v startQid=%d events: %s%s", msg, tcp, startQid, strings.Join(trace, " "), pauseNote()),
 			map[string]any{"Choices": c.Choices(), "Scenario": fmt.Sprintf("tcp=%v,qid=%d,over=%d", tcp, startQid, oversize)})
 	}
 
@@ -293,6 +295,9 @@ func c05Scenario(c *choice.Ctx, rep *report.R, tcp bool, startQid int, nCalls, d
 	}
 	tr.Close()
 	wait()
+	if resume() { // a goroutine held at a pause point goes on only now, after everything was cancelled and closed
+		wait()
+	}
 	check()
 	for _, v := range own.Audit() {
 		fail("ownership", v)
@@ -573,6 +578,9 @@ func TestVerifC05(t *testing.T) {
 	}
 	cfgs := []cfg{{true, 0, -1, nCalls}, {false, 0, -1, nCalls}, {true, 65534, -1, nCalls}, {true, 65535, -1, nCalls}, {false, 65533, -1, nCalls}, {true, 65533, -1, nCalls},
 		{false, 0, 1, nCalls + 1}, {false, 0, 0, nCalls}}
+	if pauseMode {
+		cfgs = cfgs[:3] // the pause-point exploration multiplies every path by the statements it passes: fewer start states
+	}
 	if rp := report.ReplayFile(); rp != nil {
 		var x struct{ Scenario string }
 		rp.Decode(&x)
@@ -599,6 +607,9 @@ func TestVerifC05(t *testing.T) {
 			cf := cf
 			st := runExplore(t, rep, bound, func(c *choice.Ctx) { c05Scenario(c, rep, cf.tcp, cf.qid, cf.calls, depth, cf.oversize) })
 			rep.Count(fmt.Sprintf("exec_tcp=%v_qid=%d_over=%d", cf.tcp, cf.qid, cf.oversize), st.Executions)
+		}
+		if pauseMode {
+			return
 		}
 		for _, tcp := range []bool{true, false} {
 			tcp := tcp
